@@ -1,18 +1,22 @@
-(* Stage corollaries of Proofs/C01/Main.stage3_program. *)
+(* The statements of Properties/C01.v as corollaries of Proofs/C01/Main.stage4_program. *)
 From Coq Require Import ZArith NArith List Bool Arith.
 From GV Require Import Base.Result Base.Host Gen.Instr Model.Num Model.Value Model.Machine
-  Model.CompileExpr Spec.Ast Spec.Eval
-  Proofs.C01.MachineFacts Proofs.C01.Fragment Proofs.C01.Stages Proofs.C01.Main.
+  Model.CompileExpr Spec.Ast Spec.Printer Spec.Eval
+  Proofs.C01.MachineFacts Proofs.C01.Fragment Proofs.C01.Stages Proofs.C01.Shape Proofs.C01.Main.
 Import ListNotations.
+
+Definition reaches (sym_hash : list N -> N) (hstate : Type) (host : hstate -> host_call -> hstate * option val)
+           (e : expr) (vin : val) (h : hstate) (v : val) (h' : hstate) (t : trace) : Prop :=
+  exists s0 fuel steps sfin,
+    initial hstate (compile_prog sym_hash e) 0 vin h = Some s0 /\
+    run hstate host fuel (compile_prog sym_hash e) s0 = REnd hstate sfin steps /\
+    current_value hstate sfin = Some v /\ hs sfin = h' /\ observable (tr sfin) = t.
 
 Lemma stage1_program : forall sym_hash hstate host, declines_defer hstate host ->
   forall e vin h n v h' t,
   stage1 e = true ->
   eval_prog sym_hash hstate host n e vin h = ODone v (h', t) ->
-  exists s0 fuel steps sfin,
-    initial hstate (compile_prog sym_hash e) 0 vin h = Some s0 /\
-    run hstate host fuel (compile_prog sym_hash e) s0 = REnd hstate sfin steps /\
-    current_value hstate sfin = Some v /\ hs sfin = h' /\ observable (tr sfin) = t.
+  reaches sym_hash hstate host e vin h v h' t.
 Proof.
   intros sym_hash hstate host Hd e vin h n v h' t Hs He.
   destruct (stage1_frag e Hs) as (A & B & C).
@@ -23,11 +27,35 @@ Lemma stage2_program : forall sym_hash hstate host, declines_defer hstate host -
   forall e vin h n v h' t,
   stage2 e = true -> shape_ok e = true -> seq_ok true e = true ->
   eval_prog sym_hash hstate host n e vin h = ODone v (h', t) ->
-  exists s0 fuel steps sfin,
-    initial hstate (compile_prog sym_hash e) 0 vin h = Some s0 /\
-    run hstate host fuel (compile_prog sym_hash e) s0 = REnd hstate sfin steps /\
-    current_value hstate sfin = Some v /\ hs sfin = h' /\ observable (tr sfin) = t.
+  reaches sym_hash hstate host e vin h v h' t.
 Proof.
   intros sym_hash hstate host Hd e vin h n v h' t Hs Hsh Hsq He.
   exact (stage3_program sym_hash hstate host Hd e vin h n v h' t (stage2_frag e Hs) Hsh Hsq He).
 Qed.
+
+Lemma stage3_program' : forall sym_hash hstate host, declines_defer hstate host ->
+  forall e vin h n v h' t,
+  frag3 e = true -> shape_ok e = true -> seq_ok true e = true ->
+  eval_prog sym_hash hstate host n e vin h = ODone v (h', t) ->
+  reaches sym_hash hstate host e vin h v h' t.
+Proof. intros. eapply stage3_program; eauto. Qed.
+
+(* every construct: printable programs outside the two known-finding classes whose
+   nested expressions are labelled with the jump-table indices of their bodies *)
+Lemma all_programs : forall sym_hash hstate host, declines_defer hstate host ->
+  forall e vin h n v h' t,
+  printable e = true -> known_K1 e = false -> known_K2 e = false -> labels_ok e = true ->
+  eval_prog sym_hash hstate host n e vin h = ODone v (h', t) ->
+  reaches sym_hash hstate host e vin h v h' t.
+Proof.
+  intros sym_hash hstate host Hd e vin h n v h' t Hp Hk1 Hk2 Hl He.
+  exact (stage4_program sym_hash hstate host Hd e vin h n v h' t
+           (not_K2_frag e Hk2) (shape_of_printable e Hp Hk1) (seq_of_printable e Hp) Hl He).
+Qed.
+
+Lemma stage4_program' : forall sym_hash hstate host, declines_defer hstate host ->
+  forall e vin h n v h' t,
+  frag e = true -> shape_ok e = true -> seq_ok true e = true -> labels_ok e = true ->
+  eval_prog sym_hash hstate host n e vin h = ODone v (h', t) ->
+  reaches sym_hash hstate host e vin h v h' t.
+Proof. intros. eapply stage4_program; eauto. Qed.
